@@ -329,8 +329,22 @@ def c19_groups(tier, tag='C19'):
 MU = 'multiplication.cpp'
 
 
+def mult_safety_groups(tag):
+    gs = [Group(tag + '.torusPolynomialMultNaive_plain_aux.safety', 'c16_mult.c', 'h_plain', extract=[(MU, 'torusPolynomialMultNaive_plain_aux')],
+                enforce='torusPolynomialMultNaive_plain_aux', loops=True, timeout=1200),
+          Group(tag + '.torusPolynomialMultNaive_aux.safety', 'c16_mult.c', 'h_naive_aux', extract=[(MU, 'torusPolynomialMultNaive_aux')],
+                enforce='torusPolynomialMultNaive_aux', loops=True, timeout=1200),
+          Group(tag + '.Karatsuba_aux.safety.recursive', 'c16_mult.c', 'h_kara', extract=[(MU, 'Karatsuba_aux')], enforce='Karatsuba_aux', enforce_rec=True,
+                replace=['torusPolynomialMultNaive_plain_aux'], loops=True, defines={'KARA_CALLEE': None}, timeout=1800,
+                note='every size >= 1: 16*size bytes of scratch suffice for the whole recursion; recursive calls replaced by the same contract')]
+    for fn in ['torusPolynomialMultKaratsuba', 'torusPolynomialAddMulRKaratsuba', 'torusPolynomialSubMulRKaratsuba']:
+        gs.append(Group('%s.%s.safety' % (tag, fn), 'c16_mult.c', 'h_kwrap', extract=[(MU, fn)], enforce=fn, replace=['Karatsuba_aux'], loops=True,
+                        defines={'KW_CALLEE': None, 'KWFN': fn}, cbmc=['--memory-leak-check'], timeout=1200, replay=('mult', fn)))
+    return gs
+
+
 def c11_groups(tier, tag='C11'):
-    gs = poly_cw_groups(tag) + poly_mono_groups(tag)
+    gs = poly_cw_groups(tag) + poly_mono_groups(tag) + mult_safety_groups(tag)
     gs.append(Group(tag + '.lemma.monomial', 'lemmas.c', 'h_lemma_monomial', backend='cadical', timeout=1500,
                     defines={'LEMMA_NMAX': 65536 if tier == 'quick' else (1 << 20)}))
     for N in ([1, 2, 4, 8, 16] if tier == 'quick' else [1, 2, 4, 8, 16, 32, 64]):
@@ -455,6 +469,7 @@ def c16_groups(tier):
     gs += tz
     gs += gate_groups('C16', tier, aliases=(0,))
     gs += c19_groups(tier, 'C16')
+    gs += mult_safety_groups('C16')
     for km, fn in [(0, 'torusPolynomialMultKaratsuba')]:
         gs.append(Group('C16.%s.bounded.N=16' % fn, 'c11_mult.c', 'h_b_karatsuba',
                         extract=[(MU, 'torusPolynomialMultNaive_plain_aux'), (MU, 'Karatsuba_aux'), (MU, fn)],
@@ -658,6 +673,7 @@ PROPS = {
                        'monomial algebra lemma over the postcondition index/sign function (X^a*X^b = X^(a+b mod 2N), X^N = -1). Schoolbook and Karatsuba '
                        'products: bounded stand-ins against the ring definition (never counted as proved).',
         'assumptions': STD_ASSUME + [
+            'memory safety and frames of the schoolbook kernels, of the recursive Karatsuba kernel (every size) and of its three wrappers (R of 2N-1 entries, 16N bytes of scratch): proved unbounded; their VALUES: ',
             'schoolbook product: bounded stand-in, N in {1,2,4,8,16}(,32,64), coefficients fully symbolic (INT32_MIN included), z3',
             'Karatsuba (plain / accumulate / subtract): bounded stand-in at N = 16 on symbolic basis pairs (X^i, c*X^j); the extension to all inputs by bilinearity of the routine is not machine-checked; fully symbolic Karatsuba is out of reach of every installed solver',
             'monomial algebra lemma: N <= 2^16 (quick) / 2^20 (thorough)',
